@@ -7,6 +7,11 @@ import AslModel.Spec.Hex
 "`-a`: addresses start at 0" (relative to the window start), "`-R <value>`: an offset added to the addresses",
 `-segment`: the segment data is taken from (default CODE), `-m 0..3` for word-oriented targets.
 Written granule by granule (no take/drop), independent of the model's clipping code.
+
+Several source files, each optionally `name(offset)`: "By using an offset, it is possible to move a file's contents to an
+arbitrary position. This offset is simply appended to a file's name, surrounded with parentheses" – the contents of every
+file appear at address + offset (numbers may be written `16`, `10h`, `$10`, `0x10`); `$` / `0x` in `-r` then stand for the
+lowest / highest address of what is transferred, i.e. of the moved contents of all source files (`expectedCellsFiles`).
 -/
 namespace AslModel.HexImage
 open AslModel.PFile (Byte Rec)
@@ -51,6 +56,18 @@ def recCells (lo hi : Nat) (rel : Bool) (reloc mm : Nat) (r : Rec) : List Cell :
 /-- the (byte address, byte) cells the hex file has to contain, in record order -/
 def expectedCells (forceSeg : Nat) (lo hi : Option Nat) (rel : Bool) (reloc mm : Nat) (recs : List Rec) : List Cell :=
   let sel := recs.filter (selected forceSeg)
+  let l := windowLo lo sel
+  let h := windowHi hi sel
+  sel.flatMap (recCells l h rel reloc mm)
+
+/-- a file's record moved by the offset of its argument `name(offset)` (addresses are 32-bit: a negative offset moves down) -/
+def moveRec (off : Int) (r : Rec) : Rec :=
+  { r with start := (((r.start : Int) + off) % (two32 : Int)).toNat }
+
+/-- the cells of a hex file made from several source files `(offset, records)`, in command line order: every file's selected
+records at address + offset, window (explicit or lowest / highest moved address over all files), `-a`, `-R` on top -/
+def expectedCellsFiles (forceSeg : Nat) (lo hi : Option Nat) (rel : Bool) (reloc mm : Nat) (files : List (Int × List Rec)) : List Cell :=
+  let sel := files.flatMap fun (off, recs) => (recs.filter (selected forceSeg)).map (moveRec off)
   let l := windowLo lo sel
   let h := windowHi hi sel
   sel.flatMap (recCells l h rel reloc mm)
